@@ -235,6 +235,14 @@ def tbl_eq(t0, t1):
               pats=lambda r: [t1.live[r]])
 
 
+def arrays_equal(t0, t1):
+    """the two snapshots are the same arrays (stronger than tbl_eq; cheap for the solver)"""
+    if t0 is t1:
+        return BoolVal(True)
+    return And(t0.live == t1.live, *([t0.cols[c] == t1.cols[c] for c in t0.cols] +
+                                     [t0.nulls[c] == t1.nulls[c] for c in t0.nulls]))
+
+
 def is_delete(t0, t1, pred):
     """t1 = t0 minus the live rows satisfying pred(Row); other rows unchanged."""
     return FA([INT], lambda r: And(t1.live[r] == And(t0.live[r], Not(pred(Row(t0, r)))),
